@@ -1333,6 +1333,35 @@ pub fn c16(tier: &str) -> Vec<Family> {
         .req(vec![to(2)]);
     let g = NodeSpec::new("gone", 1).placement(Placement::Dropped);
     let spec = Arc::new(BenchSpec::new(vec![p, ch, gc, g]));
+    // Errors raised by models that own sub-models.
+    let p2 = NodeSpec::new("top", 2)
+        .script(1, vec![Op::Panic(PanicKind::String)])
+        .script(2, vec![sendc(0, 1, 1)])
+        .out(vec![to(3)]);
+    let ch2 = NodeSpec::new("mid", 2)
+        .parent(0)
+        .script(1, vec![Op::Panic(PanicKind::Custom)])
+        .script(2, vec![sendc(0, 1, 1)])
+        .out(vec![to(3)]);
+    let gc2 = NodeSpec::new("leaf", 2).parent(1);
+    let g2 = NodeSpec::new("gone", 1).placement(Placement::Dropped);
+    let sib = NodeSpec::new("sibling", 1).parent(0);
+    let spec2 = Arc::new(BenchSpec::new(vec![p2, ch2, gc2, g2, sib]));
+    sc.push(scn("names/panic_top", &spec2, vec![pe(0, 1, 1)]));
+    sc.push(scn("names/panic_mid", &spec2, vec![pe(1, 1, 1)]));
+    sc.push(scn("names/norecipient_top", &spec2, vec![pe(0, 2, 1)]));
+    sc.push(scn("names/norecipient_mid", &spec2, vec![pe(1, 2, 1)]));
+    // Two models whose init floods a third one (more than its capacity each).
+    for c in [1usize, 2, 3] {
+        let flood: Vec<Op> = (0..c + 2).map(|k| sendc(0, 1, k as i64)).collect();
+        for order in 0..2 {
+            let sink = NodeSpec::new("sink", c).script(1, vec![Op::ReadTime]);
+            let f0 = NodeSpec::new("flooder0", 1).init(flood.clone()).out(vec![to(if order == 0 { 0 } else { 2 })]);
+            let f1 = NodeSpec::new("flooder1", 1).init(flood.clone()).out(vec![to(if order == 0 { 0 } else { 2 })]);
+            let nodes = if order == 0 { vec![sink, f0, f1] } else { vec![f0, f1, sink] };
+            sc.push(scn(format!("init_fan_in/cap{}/order{}", c, order), &Arc::new(BenchSpec::new(nodes)), vec![]));
+        }
+    }
     sc.push(scn("names/panic", &spec, vec![pe(0, 1, 1)]));
     sc.push(scn("names/norecipient", &spec, vec![pe(2, 2, 1)]));
     sc.push(scn("names/deadlock", &spec, vec![pe(2, 3, 1)]));
@@ -1349,6 +1378,8 @@ pub fn c16(tier: &str) -> Vec<Family> {
             "delivery_dup",
             "error_class",
             "report_exact",
+            "half_handler",
+            "pending_send",
         ],
         sc,
     )
@@ -1495,6 +1526,18 @@ pub fn c19(tier: &str) -> Vec<Family> {
     let o = NodeSpec::new("O", 2).placement(Placement::Orphan);
     let b = NodeSpec::new("B", 1).script(2, vec![sendp(0, 3, 1)]).out(vec![to(0)]);
     benches.push(("after_panic", Arc::new(BenchSpec::new(vec![a, o, b])), vec![pe(0, 1, 0), Cmd::Step]));
+    // A multi-recipient broadcast suspended on full mailboxes of stalled models.
+    let a = NodeSpec::new("A", 2)
+        .script(1, vec![sendp(0, 2, 1), sendp(0, 2, 2), sendp(0, 2, 3)])
+        .out(vec![to(1), to(2)]);
+    let b = NodeSpec::new("B", 1).script(2, vec![query(0, 9)]).req(vec![to(0)]);
+    let c = NodeSpec::new("C", 1).script(2, vec![query(0, 9)]).req(vec![to(0)]);
+    benches.push(("bcast_stalled", Arc::new(BenchSpec::new(vec![a, b, c])), vec![pe(0, 1, 0), Cmd::Step]));
+    // A requestor broadcast with pending replies.
+    let a = NodeSpec::new("A", 2).script(1, vec![query(0, 2)]).req(vec![to(1), to(2)]);
+    let b = NodeSpec::new("B", 1).script(2, vec![query(0, 3)]).req(vec![to(0)]);
+    let c = NodeSpec::new("C", 1);
+    benches.push(("query_bcast_stalled", Arc::new(BenchSpec::new(vec![a, b, c])), vec![pe(0, 1, 0)]));
     for (name, spec, cmds) in &benches {
         for pos in 0..=cmds.len() {
             let mut c2 = cmds.clone();
